@@ -22,6 +22,21 @@ check("C08", "exploration",
       "Trusts math/big and the argument that digits 2,3,6,7,8 take the same branches as 1,4,5; mantissas longer than the bound are not covered.",
       "bounded exhaustive input enumeration vs exact big-number reference", "DESIGN.md#c08")
 
+check("C07", "exploration",
+      "Every JSON value derivable with at most N scalars+brackets (depth<=3) over a scalar alphabet that contains every number notation the shortener special-cases, strings with escapes and the literals, rendered in 5 whitespace styles, is minified with KeepNumbers off/on; the output must be valid (encoding/json), token-for-token equal under an own raw lexer (strings/literals byte-identical, numbers equal as exact big-number normal forms, byte-identical with KeepNumbers) and never longer.",
+      "Trusts encoding/json.Valid, the own raw lexer and math/big; texts beyond the size bound are not covered.",
+      "bounded exhaustive grammar enumeration vs independent JSON lexer and exact number reference", "DESIGN.md#c07")
+
+check("C15", "model_checking",
+      "Explicit-state breadth-first search over registration histories (16 operations: literal, func, regexp and command registrations with overlapping keys) up to depth 3 (quick) / 4 (thorough). States are deduplicated on the canonical form of a reference model written from the documentation; every transition replays the full history on a fresh real registry and compares Minify and Match on 14 media-type strings (which minifier ran, the parameter map it received, bytes written, error).",
+      "The model (literal first, then first matching pattern in registration order, else ErrNotExist and nothing written) is the trusted statement of the documented rules; media types outside the query alphabet are not covered.",
+      "explicit-state BFS over operation histories with the implementation as transition function and a reference model as oracle", "DESIGN.md#c15", engine="bfs")
+
+check("C18", "exploration",
+      "Every payload of <=2 arbitrary bytes and of <=L symbols over a structural alphabet, encoded four valid ways, under 19 media-type headers and four registries (none, real css+svg, stubs, failing stubs) goes through DataURI; an own RFC 2397 decoder must recover the same media type (up to case/whitespace/defaults) and exactly the payload the registry produces; encoding validity, shorter-encoding choice and the never-longer clause are checked. Mediatype is compared with a 10-line reference on every sequence of <=5/7 tokens.",
+      "Trusts the own RFC 2397 decoder and RFC 3986 character classes; 'validly encoded' for the never-longer clause means base64 or every character escaped that RFC 3986 forbids plus '&'.",
+      "bounded exhaustive input enumeration vs independent decoder", "DESIGN.md#c18")
+
 ALL = ["C%02d" % i for i in range(1, 21)]
 NOT_YET = {p: "check not built yet in this revision (planned, see DESIGN.md section 4); not claimed until its command exists" for p in ALL if p not in CHECKS}
 
@@ -36,7 +51,8 @@ manifest = {
         "add_only": True,
     },
     "engines": [
-        {"name": "enum", "path": "/verif/internal/core", "serves_properties": sorted(CHECKS), "kind_free_text": "bounded exhaustive case enumerator (mixed radix / grammar families, sharded over all cores) with independent oracles"},
+        {"name": "enum", "path": "/verif/internal/core", "serves_properties": sorted(k for k in CHECKS if CHECKS[k]["engine"] == "enum"), "kind_free_text": "bounded exhaustive case enumerator (mixed radix / grammar families, sharded over all cores) with independent oracles"},
+        {"name": "bfs", "path": "/verif/internal/props/c15", "serves_properties": ["C15"], "kind_free_text": "explicit-state breadth-first search over operation histories; successor = replay on a fresh real object + one operation; reference-model canonical state for deduplication"},
     ],
     "checks": [CHECKS[k] for k in sorted(CHECKS)],
     "not_applicable": [{"property_id": p, "reason": r} for p, r in sorted(NOT_YET.items())],
